@@ -133,33 +133,25 @@ def check_config(cfg, w, rep):
     recs = set()
     for p in R.index_inserts:
         lf = prog.fns[p]
-        for e in w.own_effects(lf):
-            if e.kind == "WriteData" and e.flags.get("op") in ("write_all", "write"):
-                t = w.sym.of_operand(e.body, e.term.args[1])
-                fm = None
-                for st in walk(t):
-                    if st[0] == "fmt":
-                        fm = st
-                        break
-                if fm is None:
-                    recs.add("?" + term_str(t)[:60])
-                    continue
-                s = ""
-                jt = None
-                for pc in fm[1]:
-                    if pc[0] == "lit":
-                        s += pc[1].replace("\n", "\\n").replace("\t", "\\t")
-                    else:
-                        a = pc[2]
-                        if a[0] == "call" and a[1] in R.hash_fns:
-                            s += "{%shex(json)}" % R.hash_fns[a[1]] if (jt is None or a[2][0] == jt or True) else "{?}"
-                            jt = a[2][0] if a[2] else None
-                        elif a[0] == "call" and a[1] == "serde_json::to_string":
-                            s += "{json}"
-                        else:
-                            s += "{?%s}" % term_str(a)[:30]
-                recs.add(s)
-                where["record"] = e.loc()
+        em = record_emission(w, lf)
+        if em["pieces"] is None:
+            recs.add("?" + "; ".join(em["problems"])[:60])
+            continue
+        s = ""
+        for pc in em["pieces"]:
+            if pc[0] == "lit":
+                s += pc[1].replace("\n", "\\n").replace("\t", "\\t")
+            else:
+                a = pc[2]
+                if a[0] == "call" and a[1] in R.hash_fns:
+                    s += "{%shex(json)}" % R.hash_fns[a[1]]
+                elif a[0] == "call" and a[1] == "serde_json::to_string":
+                    s += "{json}"
+                else:
+                    s += "{?%s}" % term_str(a)[:30]
+        recs.add(s)
+        if em["writes"]:
+            where["record"] = em["writes"][0].loc()
     desc["record"] = sorted(recs)[0] if len(recs) == 1 else "DIFFERENT:" + " | ".join(sorted(recs))
     # json fields: constants of the derived Serialize impl, in order
     rt = sorted(R.record_types)[0] if R.record_types else None
